@@ -94,6 +94,19 @@ def max_ulps(a, b, scale, bits=52):
     return core.ulps(d, 0.0, scale, bits) if d > 0 else 0
 
 
+def blew_up(result, initial):
+    """a run that is non-finite or grew by more than 1e3 is an unstable scheme combination (e.g. the centered flux with an
+    explicit integrator): round-off differences between a problem and its twin are amplified at the same rate, so the
+    metamorphic relations are only judged on runs that did not blow up (finiteness itself is C09 / C10 / C03 business)"""
+    for a, b in zip(result.data, initial.data):
+        a = np.asarray(a, dtype=float)
+        if not np.all(np.isfinite(a)):
+            return True
+    sa = max(float(np.max(np.abs(np.asarray(a, dtype=float)))) for a in result.data)
+    sb = max(float(np.max(np.abs(np.asarray(b, dtype=float)))) for b in initial.data)
+    return sa > 1e3 * max(sb, 1e-300)
+
+
 def solver_tok(u40):
     """a defect measured in units of 2^-40 (solver clause, tolerance 2^24) expressed on the round-off scale the judges
     compare with TolRoundoff = 2^22: divide by 4, keeping non-finite (capped) values capped"""
@@ -261,6 +274,8 @@ def shift_solve_cases_1d(rnd, tier):
         except Exception as ex:
             recs.append(O.raised_record(ex, model=kind, flux=str(flux), recon=recon, n=n, integrator=cls))
             continue
+        if blew_up(a, f0) or blew_up(b, f0k):
+            a, b = f0, f0k            # unstable combination: only the operator is compared
         worst = 0
         bitequal = True
         for q in range(model.neq):
@@ -339,6 +354,8 @@ def shift_solve_cases_2d(rnd, tier):
         except Exception as ex:
             recs.append(O.raised_record(ex, nx=nx, ny=ny, flux=flux, recon=str(recon), integrator=cls))
             continue
+        if blew_up(a, f0) or blew_up(b, f0k):
+            a, b = f0, f0k
         worst = 0
         for q in range(3):
             sc = max(float(np.max(np.abs(a.data[q]))), float(np.max(np.abs(f0.data[q])))) + 1e-300
@@ -768,6 +785,10 @@ def mirror_cases(rnd, tier):
             nit = rnd.choice([1, 3, 6])
             a = integrate(cls, m, disc, f, cfl, nit)
             b = integrate(cls, mm, discm, fm_, cfl, nit)
+            if blew_up(a, f) or blew_up(b, fm_):
+                recs.append(tok(mirror=worst, model=kind, flux=str(P["flux"]), recon=P["recon"], n=P["n"], integrator=cls,
+                                bcl=P["bcL"]["type"], bcr=P["bcR"]["type"], unstable=1))
+                continue
             for q in range(model.neq):
                 sc = max(float(np.max(np.abs(a.data[q]))), float(np.max(np.abs(f.data[q])))) + 1e-300
                 if implicit:
@@ -820,19 +841,30 @@ def scaling_cases(rnd, tier):
                 facs = [a_, a_ * b_, a_ * b_ * b_]
             bad = 0
             ro = 0
+            diag = ""
+            if blew_up(A, f) or blew_up(B, fs):
+                recs.append(tok(scaling=0, scalero=0, finite=0, model=kind, flux=str(P["flux"]), recon=P["recon"], n=P["n"],
+                                integrator=cls, bcl=P["bcL"]["type"], bcr=P["bcR"]["type"], unstable=1))
+                continue
             smooth = P["recon"] in ("muscl_vanalbada", "muscl_vanleer")
             for q in range(model.neq):
                 x, y = A.data[q] * facs[q], B.data[q]
                 if smooth:      # homogeneous only up to the relative 1e-20/slope^2 the property states (C12): round-off clause
                     ro = max(ro, max_ulps(x, y, float(np.max(np.abs(x))) + 1e-300))
                 else:
-                    bad += int(np.sum(~((x == y) | (np.isnan(x) & np.isnan(y)))))
+                    mism = ~((x == y) | (np.isnan(x) & np.isnan(y)))
+                    bad += int(np.sum(mism))
+                    if np.any(mism) and not diag:
+                        k_ = int(np.argmax(mism))
+                        diag = "eq %d cell %d: scaled original %r, rescaled problem %r; inputs %r / %r" % (
+                            q, k_, float(x[k_]), float(y[k_]), [float(d[k_]) for d in f.data], [float(d[k_]) for d in fs.data])
             if smooth:
                 ro = max(ro, core.ulps(A.time * (l_ / b_), B.time, max(B.time, 1e-300)))
             elif not (A.time * (l_ / b_) == B.time):
                 bad += 1
+                diag = diag or "time: scaled original %r, rescaled problem %r" % (A.time * (l_ / b_), B.time)
             finite = all(bool(np.all(np.isfinite(d))) for d in A.data)
-            recs.append(tok(scaling=bad, scalero=ro, finite=1 if finite else 0, model=kind, flux=str(P["flux"]), recon=P["recon"], n=P["n"],
+            recs.append(tok(scaling=bad, scalero=ro, finite=1 if finite else 0, diag=diag, nit=nit, model=kind, flux=str(P["flux"]), recon=P["recon"], n=P["n"],
                             integrator=cls, bcl=P["bcL"]["type"], bcr=P["bcR"]["type"], units=[repr(x) for x in sc]))
         except Exception as ex:
             recs.append(O.raised_record(ex, model=kind, flux=str(P["flux"]), recon=P["recon"], n=P["n"], integrator=cls))
